@@ -7,6 +7,13 @@ def parseType : String → Option EvType
   | "SCHEMA_CHANGE" => some .schema | "TOPOLOGY_CHANGE" => some .topology | "STATUS_CHANGE" => some .status | _ => none
 
 def handle (op real : String) : Verdict := Id.run do
+  if op.startsWith "Z:" then
+    -- a flood with a slow client: back-pressure, not loss - both clients get every event
+    let n := (((op.drop 2).toString.splitOn ":").headD "0").toNat?.getD 0
+    let want := s!"z0={n} z1={n}"
+    if real == want then return { kind := "ok", sig := "flood" }
+    if real.startsWith "z0=" then return { kind := "spec", sig := "flood", key := "C14:events-lost-under-load", detail := s!"expected {want}: {op} -> {real}" }
+    return { kind := "diff", sig := "flood", detail := real }
   let toks := splitNE op " "
   let n := ((toks.find? (·.startsWith "L:")).map fun t => ((t.drop 2).toString.toNat?.getD 1)).getD 1
   let mut s : St := {}
